@@ -26,7 +26,9 @@ def run(chk):
         tc.replay_visual(chk, "gal-2feat", r, c, kind, 2, "C13", "nt_C13g")
     # own-area share as a collect gate only (use threshold 0), both tracker kinds
     r, c = tc.generate_visual(chk, "gal-own-collect", depth=5, Sim=8, OwnUse=0, OwnCollect=50, MaxObs=2, H=2, Slots={1, 2}, Confs={900, 800},
-                              Feats={1}, Quals={90}, MaxDets=2, MaxIdle=8, simulate={"num": 15 if quick else 150, "depth": 6})
+                              Feats={1}, Quals={90}, MaxDets=3, MaxIdle=8, simulate={"num": 20 if quick else 150, "depth": 6})
+    # (three detections per call: a detection alone on its slot next to two that cover each other - the shares within one
+    # call differ, and each detection is gated with its own)
     for kind in ("visual", "batchvisual"):
         tc.replay_visual(chk, "gal-own-collect", r, c, kind, 2, "C13", "nt_C13g")
     # an object whose apparent size crosses the minimal-area threshold (slot 5 = slot 1 seen smaller): the area gate
